@@ -53,5 +53,16 @@ def main():
         print('%s relation to f_PS vs quadrature of arXiv:1502.04199: max rel. diff %s' % (kind, mpmath.nstr(w_, 3)))
         if w_ > mpmath.mpf(10) ** -12:
             ok = False
+    # differential equation of f_PS used for the equal-argument limits (C11):
+    #   z (1-4z) f_PS'(z) = (1-2z) f_PS(z) + 2 z ln z
+    w_ = 0
+    for z in ['0.05', '0.2', '0.6', '2', '30']:
+        zz = mpmath.mpf(z)
+        lhs = zz * (1 - 4 * zz) * mpmath.diff(lambda t: mp_fPS(t), zz)
+        rhs = (1 - 2 * zz) * mp_fPS(zz) + 2 * zz * mpmath.log(zz)
+        w_ = max(w_, abs(lhs - rhs) / max(abs(rhs), 1))
+    print('f_PS differential equation vs numerical derivative of the integral: max rel. diff %s' % mpmath.nstr(w_, 3))
+    if w_ > mpmath.mpf(10) ** -10:
+        ok = False
     print('selftest', 'ok' if ok else 'FAILED')
     return 0 if ok else 1
